@@ -52,7 +52,7 @@ Lemma wqi_if r c a b Q lo :
   wqi (IIf r c a b) Q lo = (forall sh, (c sh lo = true -> wql a Q lo) /\ (c sh lo = false -> wql b Q lo)).
 Proof. reflexivity. Qed.
 
-Ltac lo_simpl := cbn [fst snd ltemp lev lb lbe lres ltimedout lidle lreg lslot lshow lheld lsnap lseen ltaking lo_temp lo_kept lo_idle lo_reg lo_b lo_be lo_res lo_slot lo_to lo_ev lo_show lo_held lo_snap lo_seen lo_taking lo0] in *.
+Ltac lo_simpl := cbn [fst snd ltemp lev lb lbe lres ltimedout lidle lreg lslot lshow lheld lsnap lseen ltaking lowes lo_temp lo_kept lo_idle lo_reg lo_b lo_be lo_res lo_slot lo_to lo_ev lo_show lo_held lo_snap lo_seen lo_taking lo_owes lo0] in *.
 
 Ltac wq1 :=
   cbv beta;
